@@ -250,6 +250,7 @@ func (ex *Exec) runPath(harness *ssa.Function, j *job) (res *PathResult) {
 	ex.natState = map[string]interface{}{}
 	ex.aliases = nil
 	ex.guards = nil
+	ex.threads, ex.curThread, ex.crashed, ex.crashedIn, ex.schedTrace = nil, nil, nil, "", nil
 	if j.model != nil {
 		ex.models = []map[string]uint64{j.model}
 	}
@@ -278,6 +279,7 @@ func (ex *Exec) runPath(harness *ssa.Function, j *job) (res *PathResult) {
 				}
 			}
 		}
+		ex.killThreads()
 		if res.Status != "internal" {
 			ex.S.PopTo(startDepth)
 		}
@@ -682,6 +684,10 @@ func (ex *Exec) reportViolation(label, detail string, m map[string]uint64) *Viol
 		v.Values = ex.nondetValues(m)
 	}
 	v.Observe = append(v.Observe, ex.observes...)
+	if len(ex.schedTrace) > 0 {
+		v.Observe = append(v.Observe, "schedule:")
+		v.Observe = append(v.Observe, ex.schedTrace...)
+	}
 	ex.out.Violations = append(ex.out.Violations, v)
 	return v
 }
